@@ -1215,7 +1215,7 @@ def WELLFORMED_PROFILES():
     from .. import spec as S
     return [
         S.profile(min_tasks=1, max_tasks=4, p_resources=75, task_constraints=(1, 4), optional_rules=(0, 2), resource_constraints=(0, 3), buffers=(0, 2),
-                  fol=(0, 2), optional_constraints=25, indicators=(0, 3), indicator_constraints=30, objectives=(0, 2), p_optional=40, p_cumulative=45),
+                  fol=(0, 2), optional_constraints=25, indicators=(0, 3), indicator_constraints=30, objectives=(0, 2), p_optional=40, p_cumulative=45, p_group_precedence=25, p_nested_force_apply=20),
         S.profile(min_tasks=1, max_tasks=2, p_resources=90, task_constraints=(1, 3), optional_rules=(0, 1), resource_constraints=(1, 3), buffers=(0, 1),
                   indicators=(1, 3), p_optional=30, p_cumulative=50, p_select=30),
     ]
